@@ -353,6 +353,68 @@ def pair_histories(seed, k, chk):
     return hs
 
 
+def no_fold(hist):
+    """True iff no operation of the history has constants for ALL its operands.  In a context with an alternative
+    context (enable_alt=True) such an operation is folded into a constant of the alternative context
+    (Expr.__new__), which FAContext.tla does not model; every other construction keeps its requested structure
+    there, so the history is a behaviour of FAContext in an enable_alt context as well."""
+    kinds = {}
+    for h in hist:
+        req = h["req"]
+        kind = req["kind"]
+        if kind not in ("symbol", "constant") and kind != "list":
+            if "rawops" in req:
+                allc = all(o[0] == "raw" or kinds.get(o[1]) == "constant" for o in req["rawops"])
+            else:
+                allc = all(kinds.get(o) == "constant" for o in req["ops"])
+            if allc:
+                return False
+        kinds.setdefault(h["res"], kind)
+    return True
+
+
+def alt_like_histories(seed, k):
+    """enable_alt family: two constants of one value whose likes have different types, used in the same operation
+    with identical siblings, in both construction orders, explicitly and as raw Python-number operands."""
+    rng = random.Random(seed)
+    nov = dict(pt="", num="", neg=0, obj=0)
+
+    def sym(name, ty, res):
+        return dict(req=dict(kind="symbol", name=name, ty=ty, value=nov, like=0, ops=[]), res=res)
+
+    def const(v, like, res):
+        return dict(req=dict(kind="constant", name="", ty="", value=nov, pyvalue=v, like=like, ops=[]), res=res)
+
+    def op(kind, ops, res):
+        return dict(req=dict(kind=kind, name="", ty="", value=nov, like=0, ops=ops), res=res)
+
+    def opnum(kind, rawops, res):
+        return dict(req=dict(kind=kind, name="", ty="", value=nov, like=0, ops=[], rawops=rawops), res=res)
+
+    hs = []
+    values = [0.1, 3, -0.0, 0.0, 1.0, 2.5, True, 1e300] + [rng.choice([-1, 1]) * rng.random() * 10.0 ** rng.randrange(-5, 6) for _ in range(k)]
+    tys = ["float16", "float32", "float64"]
+    kinds2 = ["multiply", "add", "subtract", "lt", "maximum", "divide", "atan2", "copysign", "hypot"]
+    for i, v in enumerate(values):
+        tx, ty = rng.sample(tys, 2)
+        k1, k2 = rng.sample(kinds2, 2)
+        for first, second in ((3, 4), (4, 3)):
+            h = [sym("x", tx, 1), sym("y", ty, 2), const(v, 1, 3), const(v, 2, 4)]
+            n = 5
+            ids = {}
+            for c in (first, second):
+                for kk in (k1, k2):
+                    h.append(op(kk, [2, c], n)); ids[kk, c] = n; n += 1
+                    h.append(op(kk, [c, 1], n)); n += 1
+                h.append(op("select", [ids[k1, c], c, 2], n)); n += 1
+            h.append(op(k1, [2, 3], ids[k1, 3]))
+            h.append(op(k1, [2, 4], ids[k1, 4]))
+            if isinstance(v, (int, float)) and not isinstance(v, bool):
+                h.append(opnum(k1, [("id", 2), ("raw", v)], ids[k1, 4]))
+            hs.append(h)
+    return hs
+
+
 def portable(hist):
     """history with direct Python values made JSON-serialisable (type name + hex bits)"""
     out = []
@@ -420,9 +482,20 @@ def run(tier, seed):
     # every fixed-arity operation kind of the package (the quantifier says "operations of every kind and arity")
     hists += simulated_histories(600 if tier == "quick" else 15000, 24, seed + 2, chk, cfg="SIM_ContextAll.cfg")
     hists += pair_histories(seed + 2, 40 if tier == "quick" else 1500, chk)
+    # the same histories in contexts with an alternative context (enable_alt=True): constants are wrapped into
+    # constants of the alternative context there.  Only histories without an all-constant operation (no_fold).
+    alt_kwargs = dict(enable_alt=True, default_constant_type="float64")
+    alt = [h for h in hists if no_fold(h)]
+    rng = random.Random(seed + 7)
+    if len(alt) > (4000 if tier == "quick" else 60000):
+        alt = rng.sample(alt, 4000 if tier == "quick" else 60000)
+    alt += [h for h in alt_like_histories(seed + 3, 60 if tier == "quick" else 2000)]
+    n_plain = len(hists)
+    hists = hists + alt
+    chk.cov["enable_alt_histories"] = len(alt)
     events = []
     for i, h in enumerate(hists):
-        replay_history(fa, h, events, i)
+        replay_history(fa, h, events, i, ctx_kwargs=alt_kwargs if i >= n_plain else None)
     chk.sample(dict(history=portable(hists[len(hists) // 3]), events=[e for e in events if e["beh"] == len(hists) // 3][:8]))
     # U3
     res = tlc.validate_events("Trace_Context", "Trace_Context.cfg", events, starts=lambda e: e["op"] == "Begin", name="ctx")
@@ -431,7 +504,8 @@ def run(tier, seed):
     for eid, clauses in res["fails"]:
         ev = byid[eid]
         chk.fail(key_of(ev, clauses), "history %d: %s -> clauses %s" % (ev["beh"], json.dumps(ev)[:400], clauses),
-                 dict(history=portable(hists[ev["beh"]]), failing_event=ev, clauses=clauses))
+                 dict(history=portable(hists[ev["beh"]]), failing_event=ev, clauses=clauses,
+                      ctx_kwargs=alt_kwargs if ev["beh"] >= n_plain else None))
     drift = [byid[i] for i, w in res["notes"] if "drift" in w]
     if drift:
         chk.drift_note("FAContext key-scheme model predicts a different object than the code on %d constructions, e.g. %s"
@@ -451,7 +525,7 @@ def replay(path):
     with open(path) as f:
         rp = json.load(f)["replay"]
     events = []
-    replay_history(fa, unportable(rp["history"]), events, 0)
+    replay_history(fa, unportable(rp["history"]), events, 0, ctx_kwargs=rp.get("ctx_kwargs"))
     res = tlc.validate_events("Trace_Context", "Trace_Context.cfg", events, stateful=True)
     for e in events:
         print(json.dumps(e))
